@@ -1066,6 +1066,9 @@ class AgentNotFoundError(Exception):
         self.message = f'Agent "{a_id}" could not be found in Environment "{environment.id}"'
         super(AgentNotFoundError, self).__init__(self.message)
 
+    def __reduce__(self):
+        return type(self), (self.a_id, self.environment)
+
 
 class DuplicateAgentError(Exception):
     """Exception raised for errors when an agent object already exists in an environment.
@@ -1092,6 +1095,9 @@ class DuplicateAgentError(Exception):
         self.environment = environment
         self.message = f'Agent "{a_id}" already exists in Environment "{environment.id}"'
         super(DuplicateAgentError, self).__init__(self.message)
+
+    def __reduce__(self):
+        return type(self), (self.a_id, self.environment)
 
 
 class ComponentNotFoundError(Exception):
@@ -1120,6 +1126,9 @@ class ComponentNotFoundError(Exception):
         self.component_type = component_type
         self.message = f'Agent {agent.id} does not have a component of type {str(component_type)}.'
         super(ComponentNotFoundError, self).__init__(self.message)
+
+    def __reduce__(self):
+        return type(self), (self.agent, self.component_type)
 
 
 class SystemNotFoundError(Exception):
@@ -1157,3 +1166,6 @@ class ModelCompleteError(Exception):
     def __init__(self):
         self.message = 'execute_systems() was called on a model with status "ModelStatus.COMPLETE".'
         super(ModelCompleteError, self).__init__(self.message)
+
+    def __reduce__(self):
+        return type(self), ()
